@@ -16,7 +16,7 @@ RULE = ('nested schedules over {lookup, register, replace}: up to 6 top-level op
 ASSUMPTIONS = ['every instruction of the translated programs (attribute read/rebind, dict get/set, one adapter-registry query, '
                'lock acquire/release) is atomic (GIL-level); the adapter registry is a map slot -> view and registerAdapter is one step',
                'deterministic pre-emption realises properly nested interleavings only; free-running threads are a test (thorough tier)']
-TRUSTED = ['translator harness/c15/translate.py (Python ast -> instruction list, fail-closed, shape-pinned)',
+TRUSTED = ['translator harness/c15/translate.py (Python ast -> instruction list + cache key, fail-closed; _find_views fully translated, the rest shape-pinned)',
            'instruction semantics coq/Model/C15.v (validated by correspondence incl. the number of adapter queries per lookup)',
            'zope.interface resolution orders (__sro__) and the adapter registry (oracle input / abstract map)']
 TECHNIQUE = ('Coq proof (invariant over arbitrary traces of a small-step system, any number of threads) about a program translated '
@@ -25,13 +25,20 @@ LEVEL_TEXT = ('Machine-checked theorems over every trace (unbounded threads and 
               'instruction list translated from _find_views / _clear_view_lookup_cache / add_view.register on this run: the cache '
               'invariant, freshness of every lookup that starts after a registration completed, no stale entry after a registration, '
               'misses never cached, concurrent = sequential. Each other parameter value (write through the re-read attribute, '
-              'in-place clear, missing guard) is refuted by a concrete schedule which is also replayed on the implementation.')
+              'in-place clear, missing guard) is refuted by a concrete schedule which is also replayed on the implementation. '
+              'The theorems are for a cache key that contains the view classifier (regenerated fact cache_key_mode); for the key '
+              '(request_iface, context_iface, view_name) of the unrepaired tree freshness is refuted by a concrete history '
+              '(exception-view lookup, then ordinary lookup of the same triad) and proved only for histories of ordinary lookups. '
+              'Lock: mutual exclusion, release by the holder, no deadlock; the scheduler of the wire glue is proved sound.')
 LEVEL_NOTE = ('Trusted: Coq kernel; instruction semantics and atomicity granularity (GIL-level); the translator; the Python harness. '
               'Free-running thread soak is a test, not part of the proof.')
 
 # interface numbering shared with the model (ids are arbitrary but fixed)
 I_INTERFACE, I_REQUEST, I_ROUTE, I_COMBINED = 0, 1, 2, 3
-CTX = {'O': 10, 'A': 11, 'B': 12, 'C': 13, 'D': 14, 'E': 15}
+CTX = {'O': 10, 'A': 11, 'B': 12, 'C': 13, 'D': 14, 'E': 15,
+       'X': 16, 'Y': 17, 'EXC': 18, 'BASEEXC': 19}      # X(Exception), Y(X): classes that are resources AND exceptions
+EXC_CTX = ('X', 'Y')
+FINDING_KEY = 'C15-cache-key-omits-classifier'
 NAMES = ['', 'x']
 PT_LOCK, PT_UNLOCK, PT_GET, PT_HELD = 100, 101, 102, 103
 
@@ -41,13 +48,14 @@ def facts(src):
     problems = []
     summary = F.check_shapes(src, os.path.join(HERE, 'pins.json'), problems)
     lookup, vt = T.DEFAULT_LOOKUP, ['IView', 'ISecuredView', 'IMultiView']
+    key_names = list(T.KEY_BASE)
     mode, fmode, register = 'Swap', 'Swap', None
     try:
         m = F.Module(src, 'pyramid/view.py')
         fn = m.find('_find_views')
         if fn is None:
             raise T.Unknown('_find_views not found')
-        lookup, vt = T.translate_lookup(fn)
+        lookup, vt, key_names = T.translate_lookup(fn)
     except Exception as e:
         problems.append('view.py:_find_views not translatable: %s' % e)
     try:
@@ -111,6 +119,9 @@ def facts(src):
            'Definition view_types : list N := [%s]%%N.\n'
            '(* translated from pyramid.view._find_views *)\n'
            'Definition lookup_prog : list instr :=\n  %s.\n'
+           '(* elements of its cache key: %s *)\n'
+           'Definition cache_key_mode : key_mode := %s.\n'
+           'Definition cache_key_has_view_types : bool := %s.\n'
            '(* Registry._clear_view_lookup_cache / the fallback installed by Configurator._fix_registry *)\n'
            'Definition clear_mode_registry : clear_mode := %s.\n'
            'Definition clear_mode_fallback : clear_mode := %s.\n'
@@ -120,18 +131,24 @@ def facts(src):
            'Definition call_view_reads_only : bool := %s.\n'
            '(* a MultiView (the object the cache holds) keeps nothing derived from requests: serving only reads it *)\n'
            'Definition multiview_stateless : bool := %s.\n'
-           % ('; '.join(str(T.VIEW_TYPE_IDS[n]) for n in vt), T.coq_prog(lookup), mode, fmode, T.coq_prog(register), F.coq_bool(reads_only), F.coq_bool(mv_stateless)))
+           % ('; '.join(str(T.VIEW_TYPE_IDS[n]) for n in vt), T.coq_prog(lookup), ', '.join(key_names),
+              'KeyFull' if 'view_classifier' in key_names else 'KeyTriad', F.coq_bool('view_types' in key_names),
+              mode, fmode, T.coq_prog(register), F.coq_bool(reads_only), F.coq_bool(mv_stateless)))
     summary.update({'lookup_prog': T.coq_prog(lookup), 'register_prog': T.coq_prog(register).replace('clear_mode_registry', mode),
-                    'clear_mode': mode, 'clear_mode_fallback': fmode, 'view_types': vt, 'params': T.flat_params(lookup), 'call_view_reads_only': reads_only, 'multiview_stateless': mv_stateless})
+                    'clear_mode': mode, 'clear_mode_fallback': fmode, 'view_types': vt, 'params': T.flat_params(lookup), 'call_view_reads_only': reads_only, 'multiview_stateless': mv_stateless, 'cache_key': key_names,
+                    'cache_key_mode': 'KeyFull' if 'view_classifier' in key_names else 'KeyTriad',
+                    'theorems_applying': ('C15_lookup_fresh (full key)' if 'view_classifier' in key_names else
+                                          'C15_lookup_fresh_ordinary_only_partial + C15_lookup_fresh_KeyTriad_refuted')})
     return {'coq': coq, 'summary': summary, 'problems': problems}
 
 
 # ------------------------------------------------------------ cases
-# lookup   : {'t':'L', 'req':1|2|3, 'ctx':'A'.., 'name':0|1, 'inj':[[point,[ops]],...]}
+# lookup   : {'t':'L', 'req':1|2|3, 'ctx':'A'.., 'name':0|1, 'cl':0|1, 'inj':[[point,[ops]],...]}
 # register : {'t':'R', 'rq':1|2, 'ctx':None|'A'.., 'name':0|1, 'sec':0|1, 'tag':int, 'inj':[ops before the clear], 'inj2':[ops after it]}
 # case     : {'init':[register ops without inj], 'ops':[ops]}
-def L(req, ctx, name=0, inj=None):
-    return {'t': 'L', 'req': req, 'ctx': ctx, 'name': name, 'inj': inj or []}
+def L(req, ctx, name=0, inj=None, cl=0):
+    """cl: 0 = ordinary lookup (IViewClassifier), 1 = exception-view lookup (IExceptionViewClassifier)"""
+    return {'t': 'L', 'req': req, 'ctx': ctx, 'name': name, 'inj': inj or [], 'cl': cl}
 
 
 def Rg(rq, ctx, name, sec, tag, inj=None, inj2=None):
@@ -151,13 +168,16 @@ HDR = {None: None, 'html': 'text/html', 'json': 'application/json', 'plain': 'te
 FORBIDDEN_ANSWER = 999000         # the request was refused by the permission check of the selected view
 
 
-def Q(req, ctx, m, name=0, h=None, u=0, s=1):
-    """u: 1 = the request carries the credentials the policy accepts; s: 0 = _call_view(secure=False)"""
-    return {'t': 'Q', 'req': req, 'ctx': ctx, 'name': name, 'm': m, 'h': h, 'u': u, 's': s}
+def Q(req, ctx, m, name=0, h=None, u=0, s=1, cl=0, via=0):
+    """u: 1 = the request carries the credentials the policy accepts; s: 0 = secure=False;
+    cl: 0 = ordinary view lookup (_call_view / Router), 1 = exception-view lookup (request.invoke_exception_view with an
+    instance of ctx as the exception); via: 1 = through the real Router (root factory returns an instance of ctx)"""
+    return {'t': 'Q', 'req': req, 'ctx': ctx, 'name': name, 'm': m, 'h': h, 'u': u, 's': s, 'cl': cl, 'via': via}
 
 
-def V(rq, ctx, pred, tag, name=0, acc=None, perm=0):
-    return {'t': 'V', 'rq': rq, 'ctx': ctx, 'name': name, 'pred': pred, 'acc': acc, 'perm': perm, 'tag': tag}
+def V(rq, ctx, pred, tag, name=0, acc=None, perm=0, exc=0):
+    """exc: 0 = add_view(context=ctx), 1 = add_exception_view(context=ctx)"""
+    return {'t': 'V', 'rq': rq, 'ctx': ctx, 'name': name, 'pred': pred, 'acc': acc, 'perm': perm, 'exc': exc, 'tag': tag}
 
 
 def offers(h, present, order):
@@ -181,7 +201,7 @@ def acceptable(a, h):
 
 
 def mvtag(T):
-    return 100000 + T[0] * 10000 + T[1] * 10 + T[2]
+    return 100000 + T[0] * 50000 + T[1] * 10000 + T[2] * 10 + T[3]
 
 
 class Book:
@@ -196,14 +216,23 @@ class Book:
         self.kinds = []
 
     def register(self, v):
-        T = (v['rq'], 0 if v['ctx'] is None else CTX[v['ctx']], v['name'])
+        """add_view(context=C) registers under the ordinary classifier and, when C is an exception class, under the
+        exception classifier too; add_exception_view only under the exception classifier"""
+        cls = [1] if v['exc'] else ([0, 1] if v['ctx'] in EXC_CTX else [0])
+        ups = []
+        for cl in cls:
+            ups += self.register1(v, cl)
+        return ups
+
+    def register1(self, v, cl):
+        T = (cl, v['rq'], 0 if v['ctx'] is None else CTX[v['ctx']], v['name'])
         mem = self.tri.setdefault(T, {})
         key = (v['pred'], v['acc'])
-        sfx = ('-accept' if v['acc'] else '') + ('-secured' if v['perm'] else '')
+        sfx = ('-accept' if v['acc'] else '') + ('-secured' if v['perm'] else '') + ('-excview' if cl else '')
         val = (v['tag'], v['perm'])
 
         def sl(vt):
-            return [T[0], T[1], vt, T[2]]
+            return [T[0], T[1], T[2], vt, T[3]]
         if not mem or (len(mem) == 1 and key in mem):
             self.kinds.append(('hist-override' if mem else 'hist-first-view') + sfx)
             mem[key] = val
@@ -243,22 +272,28 @@ class Book:
 def gen_hist(rng):
     use_accept = rng.random() < 0.6
     use_perm = rng.random() < 0.5
+    use_exc = rng.random() < 0.5      # exception classes as contexts, exception views, exception-view lookups
     tag = [0]
     tri = []
     steps = []
+    rctx = [None, 'A', 'A', 'B', 'B', 'C'] + (['X', 'X', 'Y', 'X'] if use_exc else [])
+    qctx = ['A', 'B', 'B', 'C', 'C', 'D'] + (['X', 'X', 'Y', 'Y', 'X'] if use_exc else [])
 
     def reg():
         if tri and rng.random() < 0.6:
             rq, ctx, name = rng.choice(tri)
         else:
             rq = 1 if rng.random() < 0.85 else 2
-            ctx = rng.choice([None, 'A', 'A', 'B', 'B', 'C'])
+            ctx = rng.choice(rctx)
             name = 0 if rng.random() < 0.9 else 1
             tri.append((rq, ctx, name))
         tag[0] += 1
+        exc = 1 if ctx in EXC_CTX and rng.random() < 0.5 else 0
+        if exc:
+            name = 0
         return V(rq, ctx, rng.choice([None, None, 'GET', 'POST', 'POST']), tag[0], name,
                  rng.choice([None, None, None, 'html', 'json', 'json', 'html1', 'plain']) if use_accept else None,
-                 1 if use_perm and rng.random() < 0.4 else 0)
+                 1 if use_perm and not exc and rng.random() < 0.4 else 0, exc)
     for _ in range(rng.choice([1, 2, 2, 3, 4])):
         steps.append(reg())
     lastq = None
@@ -273,11 +308,16 @@ def gen_hist(rng):
                 if use_perm and rng.random() < 0.5:
                     q['u'] = rng.choice([0, 1])
                     q['s'] = rng.choice([1, 1, 1, 0])
+                if q['ctx'] in EXC_CTX and q['name'] == 0 and rng.random() < 0.6:
+                    q['cl'] = 1 - q['cl']          # the same triad under the other classifier
             else:
-                q = Q(rng.choice([1, 1, 1, 3]), rng.choice(['A', 'B', 'B', 'C', 'C', 'D']), rng.choice(METHODS),
-                      0 if rng.random() < 0.9 else 1,
+                ctx = rng.choice(qctx)
+                name = 0 if rng.random() < 0.9 else 1
+                cl = 1 if ctx in EXC_CTX and name == 0 and rng.random() < 0.5 else 0
+                q = Q(rng.choice([1, 1, 1, 3]), ctx, rng.choice(METHODS), name,
                       rng.choice(HKEYS) if use_accept else None,
-                      rng.choice([0, 1]) if use_perm else 0, rng.choice([1, 1, 1, 0]) if use_perm else 1)
+                      rng.choice([0, 1]) if use_perm else 0, rng.choice([1, 1, 1, 0]) if use_perm else 1, cl)
+            q['via'] = 1 if q['cl'] == 0 and q['req'] == 1 and q['s'] == 1 and rng.random() < 0.3 else 0
             lastq = q
             steps.append(q)
         else:
@@ -324,12 +364,20 @@ def hist_scenarios():
                          Q(1, 'A', 'GET', 0, 'html'), Q(1, 'A', 'GET', 0, 'html1'), Q(1, 'A', 'GET', 0, 'textany'),
                          Q(1, 'A', 'GET', 0, 'anylow'), Q(1, 'A', 'GET', 0, None), V(1, 'A', None, 4, 0, 'html1'),
                          Q(1, 'A', 'GET', 0, 'textany'), Q(1, 'A', 'GET', 0, 'xml')], 'order': 1})
+    # the view classifier: only an exception view exists for X; exception-view lookup, then the ordinary request for a
+    # resource of class X (directly and through the Router) -- and the other way round
+    out.append({'hist': [V(1, 'X', None, 1, 0, None, 0, 1), Q(1, 'X', 'GET', cl=0), Q(1, 'X', 'GET', cl=1),
+                         Q(1, 'X', 'GET', cl=0), Q(1, 'X', 'GET', cl=0, via=1)]})
+    out.append({'hist': [V(1, 'X', None, 1), V(1, 'X', None, 2, 0, None, 0, 1), Q(1, 'X', 'GET', cl=0, via=1),
+                         Q(1, 'X', 'GET', cl=1), Q(1, 'Y', 'GET', cl=1), Q(1, 'Y', 'GET', cl=0), Q(3, 'Y', 'GET', cl=1)]})
+    out.append({'hist': [V(1, 'A', None, 1), V(1, 'X', 'POST', 2, 0, None, 0, 1), Q(1, 'X', 'POST', cl=1),
+                         Q(1, 'X', 'POST', cl=0), V(1, 'X', 'POST', 3), Q(1, 'X', 'POST', cl=0), Q(1, 'X', 'POST', cl=1)]})
     for c in out:
         c.setdefault('order', 0)
     return out
 
 
-SRO_LEN = {1: 2, 2: 2, 3: 4, 'A': 3, 'B': 4, 'C': 5, 'D': 4, 'E': 3}
+SRO_LEN = {1: 2, 2: 2, 3: 4, 'A': 3, 'B': 4, 'C': 5, 'D': 4, 'E': 3, 'X': 5, 'Y': 6}
 
 
 def npoints(req, ctx):
@@ -337,7 +385,7 @@ def npoints(req, ctx):
 
 
 def slot_of(r):
-    return (r['rq'], 0 if r['ctx'] is None else CTX[r['ctx']], 1 if r['sec'] else 0, r['name'])
+    return (0, r['rq'], 0 if r['ctx'] is None else CTX[r['ctx']], 1 if r['sec'] else 0, r['name'])
 
 
 class Gen:
@@ -384,7 +432,7 @@ class Gen:
             req = rng.choice([1, 1, 1, 1, 2, 3, 3])
             ctx = rng.choice(['A', 'B', 'B', 'C', 'C', 'D', 'E'])
             name = 0 if rng.random() < 0.8 else 1
-        me = L(req, ctx, name)
+        me = L(req, ctx, name, None, 1 if rng.random() < 0.12 else 0)
         if depth < 3 and rng.random() < (0.65 if depth == 0 else 0.35):
             n = npoints(req, ctx)
             for _ in range(rng.choice([1, 1, 1, 2, 3])):
@@ -512,7 +560,8 @@ def _ops_ok(ops, depth):
         if not isinstance(o, dict):
             return False
         if o.get('t') == 'L':
-            if o.get('req') not in (1, 2, 3) or o.get('ctx') not in ('A', 'B', 'C', 'D', 'E') or o.get('name') not in (0, 1):
+            if o.get('req') not in (1, 2, 3) or o.get('ctx') not in ('A', 'B', 'C', 'D', 'E') or o.get('name') not in (0, 1) \
+                    or o.get('cl') not in (0, 1):
                 return False
             inj = o.get('inj')
             if not isinstance(inj, list):
@@ -549,16 +598,21 @@ def valid(case):
                 if not isinstance(st, dict):
                     return False
                 if st.get('t') == 'Q':
-                    if set(st) != {'t', 'req', 'ctx', 'name', 'm', 'h', 'u', 's'} or st['req'] not in (1, 3) \
+                    if set(st) != {'t', 'req', 'ctx', 'name', 'm', 'h', 'u', 's', 'cl', 'via'} or st['req'] not in (1, 3) \
+                            or st['cl'] not in (0, 1) or st['via'] not in (0, 1) \
+                            or (st['cl'] == 1 and (st['ctx'] not in EXC_CTX or st['name'] != 0 or st['via'])) \
+                            or (st['via'] == 1 and (st['req'] != 1 or st['s'] != 1)) \
                             or st['m'] not in METHODS or st['u'] not in (0, 1) or st['s'] not in (0, 1) \
                             or st['h'] not in HDR \
-                            or st['ctx'] not in ('A', 'B', 'C', 'D', 'E') or st['name'] not in (0, 1):
+                            or st['ctx'] not in ('A', 'B', 'C', 'D', 'E', 'X', 'Y') or st['name'] not in (0, 1):
                         return False
                 elif st.get('t') == 'V':
-                    if set(st) != {'t', 'rq', 'ctx', 'name', 'pred', 'acc', 'perm', 'tag'} or st['rq'] not in (1, 2) \
+                    if set(st) != {'t', 'rq', 'ctx', 'name', 'pred', 'acc', 'perm', 'exc', 'tag'} or st['rq'] not in (1, 2) \
+                            or st['exc'] not in (0, 1) \
+                            or (st['exc'] == 1 and (st['ctx'] not in EXC_CTX or st['perm'] or st['name'])) \
                             or st['perm'] not in (0, 1) \
                             or st['acc'] not in ACC \
-                            or st['pred'] not in PREDS or st['ctx'] not in (None, 'A', 'B', 'C', 'D', 'E') \
+                            or st['pred'] not in PREDS or st['ctx'] not in (None, 'A', 'B', 'C', 'D', 'E', 'X', 'Y') \
                             or st['name'] not in (0, 1) or not isinstance(st['tag'], int) or not (0 < st['tag'] < 90000):
                         return False
                 else:
@@ -582,7 +636,7 @@ def _wire_updates(r):
     s = slot_of(r)
     ups = []
     if _impl['override_unregisters']:
-        ups = [[[s[0], s[1], vt, s[3]], []] for vt in (0, 1)]
+        ups = [[[s[0], s[1], s[2], vt, s[4]], []] for vt in (0, 1)]
     return ups + [[list(s), [r['tag']]]]
 
 
@@ -593,7 +647,7 @@ def _wire_ops(ops, counter):
         counter[0] += 1
         if o['t'] == 'L':
             inj = [[p, _wire_ops(sub, counter)] for p, sub in o['inj']]
-            out.append([0, oid, [o['req'], CTX[o['ctx']], o['name']], inj])
+            out.append([0, oid, [o['cl'], o['req'], CTX[o['ctx']], o['name']], inj])
         else:
             out.append([1, oid, _wire_updates(o), _wire_ops(o['inj'], counter), _wire_ops(o['inj2'], counter)])
     return out
@@ -612,7 +666,7 @@ def to_wire(case):
         ops, ans = [], []
         for oid, st in enumerate(case['hist']):
             if st['t'] == 'Q':
-                ops.append([0, oid, [st['req'], CTX[st['ctx']], st['name']], []])
+                ops.append([0, oid, [st['cl'], st['req'], CTX[st['ctx']], st['name']], []])
                 ans.append([oid, book.table(st)])
             else:
                 ops.append([1, oid, book.register(st), [], []])
@@ -686,6 +740,12 @@ def setup(tier):
     class O15E:
         pass
 
+    class O15X(Exception):          # a resource class that is also an exception class
+        pass
+
+    class O15Y(O15X):
+        pass
+
     class Reg(Registry):
         """public seam: a Registry subclass; runs the scheduled operations just before / just after the cache is cleared"""
         def _clear_view_lookup_cache(self):
@@ -701,7 +761,10 @@ def setup(tier):
         # attribute was read, before cache.get" run inside the getter after the value was fetched
         @property
         def _view_lookup_cache(self):
-            v = self.__dict__['_c15_cache']
+            try:
+                v = self.__dict__['_c15_cache']
+            except KeyError:            # behave like a plain attribute that was not set yet
+                raise AttributeError('_view_lookup_cache')
             w = self.__dict__.get('_c15_world')
             if w is not None and w.stack:
                 ops = w.stack[-1]['inj'].pop(PT_GET, None)
@@ -713,7 +776,14 @@ def setup(tier):
         def _view_lookup_cache(self, v):
             self.__dict__['_c15_cache'] = v
 
-    classes = {'A': O15A, 'B': O15B, 'C': O15C, 'D': O15D, 'E': O15E}
+        @_view_lookup_cache.deleter
+        def _view_lookup_cache(self):
+            try:
+                del self.__dict__['_c15_cache']
+            except KeyError:
+                raise AttributeError('_view_lookup_cache')
+
+    classes = {'A': O15A, 'B': O15B, 'C': O15C, 'D': O15D, 'E': O15E, 'X': O15X, 'Y': O15Y}
     # harness-side patch of the module global (no source change): record what each lookup made by _call_view returned,
     # as a copy taken at return time
     if not hasattr(pview._find_views, 'c15_orig'):
@@ -722,6 +792,10 @@ def setup(tier):
         def recording_find_views(*a, **kw):
             r = orig(*a, **kw)
             _impl['last_found'] = None if r is None else list(r)
+            if _impl.get('first_found') is None:
+                w = a[0].__dict__.get('_c15_world') if a else None
+                n = w.stack[-1]['n'] if w is not None and w.stack else 0
+                _impl['first_found'] = (_impl['last_found'], n)
             return r
         recording_find_views.c15_orig = orig
         pview._find_views = recording_find_views
@@ -750,6 +824,12 @@ def setup(tier):
         wo = _World(order=o)
         orders[o] = [v for _, v in wo.reg.queryUtility(IAcceptOrder).sorted()]
     _impl['orders'] = orders
+    # what the cache key of this tree contains (read off a key the implementation itself made)
+    wk = _World()
+    wk.add_view(Rg(1, 'A', 0, 0, 1))
+    _impl['pview']._find_views(wk.reg, wk.req[1], wk.ctx['A'], '')
+    ks = list(wk.reg._view_lookup_cache)
+    _impl['key_has_classifier'] = bool(ks) and len(ks[0]) > 3 and ks[0][3] in wk.classifier_ids
     for k, v in SRO_LEN.items():
         i = k if isinstance(k, int) else CTX[k]
         got = [len(s) for j, s in tbl if j == i][0]
@@ -823,7 +903,13 @@ class _World:
         self.req = {1: im['IRequest'], 2: route, 3: route.combined}
         self.ctx = {k: im['implementedBy'](c) for k, c in im['classes'].items()}
         self.iface_ids = {im['Interface']: I_INTERFACE, im['IRequest']: I_REQUEST, route: I_ROUTE,
-                          route.combined: I_COMBINED, im['implementedBy'](object): CTX['O']}
+                          route.combined: I_COMBINED, im['implementedBy'](object): CTX['O'],
+                          im['implementedBy'](Exception): CTX['EXC'], im['implementedBy'](BaseException): CTX['BASEEXC']}
+        from pyramid.interfaces import IViewClassifier, IExceptionViewClassifier
+        self.classifiers = {0: IViewClassifier, 1: IExceptionViewClassifier}
+        self.classifier_ids = {IViewClassifier: 0, IExceptionViewClassifier: 1}
+        config.set_root_factory(lambda request: request.environ['c15.root'])
+        self.router = None
         for k, i in self.ctx.items():
             self.iface_ids[i] = CTX[k]
         self.real = reg.adapters
@@ -866,15 +952,21 @@ class _World:
             r.headers['X-C15'] = str(tag)
             return r
         view.c15_tag = tag
-        self.config.add_view(view, context=None if v['ctx'] is None else _impl['classes'][v['ctx']],
-                             name=NAMES[v['name']], route_name='r1' if v['rq'] == 2 else None,
-                             request_method=v['pred'], accept=ACC[v['acc']], permission='p' if v['perm'] else None)
-        T = (v['rq'], 0 if v['ctx'] is None else CTX[v['ctx']], v['name'])
+        if v['exc']:
+            self.config.add_exception_view(view, context=_impl['classes'][v['ctx']],
+                                           route_name='r1' if v['rq'] == 2 else None,
+                                           request_method=v['pred'], accept=ACC[v['acc']])
+        else:
+            self.config.add_view(view, context=None if v['ctx'] is None else _impl['classes'][v['ctx']],
+                                 name=NAMES[v['name']], route_name='r1' if v['rq'] == 2 else None,
+                                 request_method=v['pred'], accept=ACC[v['acc']], permission='p' if v['perm'] else None)
         ctx_iface = _impl['Interface'] if v['ctx'] is None else self.ctx[v['ctx']]
-        mv = self.real.registered((IViewClassifier, self.req[v['rq']], ctx_iface), IMultiView, name=NAMES[v['name']])
-        if mv is not None:
-            self.mvtags[id(mv)] = mvtag(T)
-            self.keep.append(mv)
+        for cl, classifier in self.classifiers.items():
+            T = (cl, v['rq'], 0 if v['ctx'] is None else CTX[v['ctx']], v['name'])
+            mv = self.real.registered((classifier, self.req[v['rq']], ctx_iface), IMultiView, name=NAMES[v['name']])
+            if mv is not None:
+                self.mvtags[id(mv)] = mvtag(T)
+                self.keep.append(mv)
 
     def request(self, st):
         """one request through pyramid.view._call_view -> ([] | [tag of the view that answered], crashed)"""
@@ -894,14 +986,48 @@ class _World:
             r.request_iface = self.req[st['req']]
         ctx = _impl['classes'][st['ctx']]()
         _impl['last_found'] = None
+        _impl['first_found'] = None
         try:
-            resp = _impl['pview']._call_view(self.reg, r, ctx, providedBy(ctx), NAMES[st['name']],
-                                             secure=bool(st['s']))
+            if st['cl'] == 1:
+                # exception-view lookup through the public API; request_iface.combined is what it looks up with
+                if st['req'] == 3:
+                    r.request_iface = self.req[2]
+                from pyramid.httpexceptions import HTTPNotFound
+                try:
+                    resp = r.invoke_exception_view(exc_info=(type(ctx), ctx, None), secure=bool(st['s']))
+                except HTTPForbidden:
+                    raise
+                except HTTPNotFound:
+                    resp = None
+            elif st['via'] == 1:
+                # through the real Router: the root factory hands out the resource, traversal finds view name '' / 'x'
+                if self.router is None:
+                    from pyramid.router import Router
+                    self.router = Router(self.reg)
+                r2 = Request.blank('/' + NAMES[st['name']])
+                r2.method = st['m']
+                for hk in ('X-User', 'Accept'):
+                    if hk in r.headers:
+                        r2.headers[hk] = r.headers[hk]
+                r2.environ['c15.root'] = ctx
+                resp = r2.get_response(self.router)
+                if resp.status_int == 404:
+                    resp = None
+                elif resp.status_int == 403:
+                    return [FORBIDDEN_ANSWER], 0
+            else:
+                resp = _impl['pview']._call_view(self.reg, r, ctx, providedBy(ctx), NAMES[st['name']],
+                                                 secure=bool(st['s']))
             return ([] if resp is None else [int(resp.headers['X-C15'])]), 0
         except PredicateMismatch:
             return [], 0
         except HTTPForbidden:
             return [FORBIDDEN_ANSWER], 0
+        except Exception as e:
+            from pyramid.httpexceptions import HTTPNotFound as _NF
+            if isinstance(e, _NF):
+                return [], 0
+            return [], 1
         except Exception:
             return [], 1
 
@@ -913,8 +1039,11 @@ class _World:
             ans, crashed = self.request(st)
         finally:
             self.stack.pop()
-        found = _impl.get('last_found')
-        self.threads.append([0, self.tags(found), crashed, 1, fr['n']])
+        # the lookup of the request itself is the first one made (the Router may make further ones, e.g. for the
+        # exception view of a 404)
+        first = _impl.get('first_found')
+        found, n = first if first is not None else (None, fr['n'])
+        self.threads.append([0, self.tags(found), crashed, 1, n])
         self.answers.append(ans)
 
     def hist_register(self, st, oid):
@@ -964,7 +1093,8 @@ class _World:
         fr = {'inj': inj, 'n': 0}
         self.stack.append(fr)
         try:
-            vs = _impl['pview']._find_views(self.reg, self.req[o['req']], self.ctx[o['ctx']], NAMES[o['name']])
+            vs = _impl['pview']._find_views(self.reg, self.req[o['req']], self.ctx[o['ctx']], NAMES[o['name']],
+                                            view_classifier=self.classifiers[o['cl']])
             rec = [0, self.tags(vs), 0, 1, fr['n']]
         except Exception as e:                      # noqa
             rec = [0, [], 1, 1, fr['n']]
@@ -1004,9 +1134,15 @@ class _World:
         out = []
         for k, vs in self.reg._view_lookup_cache.items():
             try:
-                key = [self.iface_ids[k[0]], self.iface_ids[k[1]], NAMES.index(k[2])]
+                # a key without classifier is reported with classifier 0 (as the model's ckey does)
+                cl = self.classifier_ids[k[3]] if len(k) > 3 else 0
+                key = [cl, self.iface_ids[k[0]], self.iface_ids[k[1]], NAMES.index(k[2])]
             except Exception:
-                key = [-1, -1, -1]
+                # a key outside the modelled universe: made by a lookup the Router does on its own (the exception view
+                # of a 404 it renders), never by an operation of the case
+                if any(x not in self.iface_ids for x in k[:2]):
+                    continue
+                key = [-1, -1, -1, -1]
             out.append([key, self.tags(vs)])
         return sorted(out)
 
@@ -1154,18 +1290,121 @@ def spec_holds(case, obs, spec):
         if e != 0 and e != -1 and a != e:
             return False                        # not answered by the first accepting candidate of lookup_all
     if quiet:
-        tbl = {tuple(k): v for k, v in table}
         for k, vs in cache:
             if not vs or not vs[0]:
                 return False                    # a miss was cached
-            want = tbl.get(tuple(k))
-            if want is None or vs[0] != want:
-                return False                    # stale entry
+            wants = _cache_wants(case, table, k)
+            if not wants or any(vs[0] != w for w in wants):
+                return False                    # stale entry, or an entry that is wrong for a lookup it will serve
     return True
 
 
+def _key_full():
+    """does the cache key of the tree under test contain the view classifier?  (from the implementation's own keys)"""
+    return bool(_impl.get('key_has_classifier'))
+
+
+def _cache_wants(case, table, k):
+    """lookup_all (final registrations) of every lookup of the case that the cache entry k serves"""
+    out = []
+    for tk, v in table:
+        if tk == k or (not _key_full() and tk[1:] == k[1:]):
+            out.append(v)
+    return out
+
+
 def classify(case, obs, spec):
-    return None
+    """C15-cache-key-omits-classifier: the tree's cache key is (request_iface, context_iface, view_name) and every
+    deviation is a lookup/request of one classifier that was served what the lookup of the OTHER classifier of the same
+    triad returns (or a cache entry that is right for one of the two and wrong for the other)."""
+    try:
+        if spec is None or 'soak' in case or _key_full():
+            return None
+        expects, quiet, table, mspawn, _tlen, sanswers = spec
+        threads, spawn, cache, answers, fresh = obs
+        if spawn != mspawn or len(threads) != len(expects):
+            return None
+        opk = _op_keys(case)
+        keys = [opk.get(i) for i in spawn] if all(i in opk for i in spawn) else None
+        sib = {}
+        for tk, v in table:
+            sib[tuple(tk)] = v
+        hit = False
+        for i, (t, e) in enumerate(zip(threads, expects)):
+            if e and t[0] == 0 and (t[2] or t[1] != e):
+                k = keys[i] if keys is not None else None
+                if k is None or t[2]:
+                    return None
+                other = (1 - k[0],) + tuple(k[1:])
+                # served from the cache (no adapter query) exactly what a lookup of the sibling key was given
+                if other not in sib or t[4] != 0:
+                    return None
+                if not any(j != i and keys[j] == other and threads[j][1] == t[1] for j in range(len(threads))):
+                    return None
+                hit = True
+        for i, (a, f) in enumerate(zip(answers, fresh)):
+            if a != f:
+                k = keys[i] if keys is not None else None
+                if k is None:
+                    return None
+                other = (1 - k[0],) + tuple(k[1:])
+                if other not in sib:
+                    return None
+                # only explained when the lookup itself deviated (served the sibling's candidates) or hit a shared entry
+                if not (threads[i][4] == 0 or threads[i][1] != expects[i]):
+                    return None
+                hit = True
+        if quiet:
+            for k, vs in cache:
+                wants = _cache_wants(case, table, k)
+                if not vs or not vs[0] or not wants:
+                    return None
+                if any(vs[0] != w for w in wants):
+                    if len(wants) < 2 or all(vs[0] != w for w in wants):
+                        return None             # wrong for every lookup it serves: not this finding
+                    hit = True
+        return FINDING_KEY if hit else None
+    except Exception:
+        return None
+
+
+def _op_keys(case):
+    """operation id (the numbering of to_wire) -> lookup key (cl, req, ctx, name), None for registrations"""
+    out = {}
+    if 'hist' in case:
+        for i, st in enumerate(case['hist']):
+            out[i] = (st['cl'], st['req'], CTX[st['ctx']], st['name']) if st['t'] == 'Q' else None
+        return out
+    counter = [0]
+
+    def walk(ops):
+        for o in ops:
+            oid = counter[0]
+            counter[0] += 1
+            if o['t'] == 'L':
+                out[oid] = (o['cl'], o['req'], CTX[o['ctx']], o['name'])
+                for _, sub in o['inj']:
+                    walk(sub)
+            else:
+                out[oid] = None
+                walk(o['inj'])
+                walk(o['inj2'])
+    walk(case['ops'])
+    return out
+
+
+def _all_lookups(ops):
+    for o in ops:
+        if o['t'] == 'L':
+            yield o
+            for _, sub in o['inj']:
+                for x in _all_lookups(sub):
+                    yield x
+        else:
+            for x in _all_lookups(o['inj']):
+                yield x
+            for x in _all_lookups(o['inj2']):
+                yield x
 
 
 def _depth(ops):
@@ -1207,6 +1446,19 @@ def kinds(case, obs):
                 k.append('hist-accept-header-wildcard')
             if any(st['t'] == 'Q' and not st['s'] for st in case['hist']):
                 k.append('hist-permissive-call')
+            if any(st['t'] == 'Q' and st['cl'] == 1 for st in case['hist']):
+                k.append('hist-exception-view-lookup')
+            if any(st['t'] == 'Q' and st['cl'] == 0 and st['ctx'] in EXC_CTX for st in case['hist']):
+                k.append('hist-ordinary-lookup-of-exception-resource')
+            if any(st['t'] == 'Q' and st['via'] for st in case['hist']):
+                k.append('hist-via-router')
+            if any(st['t'] == 'V' and st['exc'] for st in case['hist']):
+                k.append('hist-add-exception-view')
+            if any(st['t'] == 'V' and not st['exc'] and st['ctx'] in EXC_CTX for st in case['hist']):
+                k.append('hist-add-view-registers-both-classifiers')
+            qk = set((st['req'], st['ctx'], st['name'], st['cl']) for st in case['hist'] if st['t'] == 'Q')
+            if any((a, b, c, 1 - d) in qk for (a, b, c, d) in qk):
+                k.append('hist-both-classifiers-same-triad')
             if any(a == [FORBIDDEN_ANSWER] for a in obs[3] if a != 0):
                 k.append('hist-forbidden-answer')
             seenq = False
@@ -1243,6 +1495,8 @@ def kinds(case, obs):
             k.append('has-multi-result')
         if any(t[2] for t in threads):
             k.append('has-crash')
+        if any(o.get('cl') for o in _all_lookups(case['ops'])):
+            k.append('has-exception-classifier-lookup')
         if any(t[0] == 1 for t in threads):
             k.append('has-registration')
 
